@@ -245,10 +245,17 @@ func VerifPermissionSegments() {
 	nq := symapi.IntRange("nq", 1, NS+1)
 	q := symapi.String("qseg", nq)
 	path := "/"
+	// an interior segment of the path may be empty ("/a//b"): it is a segment like any other -
+	// '+' matches it, no literal does
+	empty := make([]bool, nq)
 	for i := 0; i < nq; i++ {
 		symapi.Assume(symapi.OneOf(q[i], "abA"))
 		if i > 0 {
 			path += "/"
+		}
+		if i > 0 && i < nq-1 && symapi.Bool("emptySegment") {
+			empty[i] = true
+			continue
 		}
 		path += q[i : i+1]
 	}
@@ -262,7 +269,7 @@ func VerifPermissionSegments() {
 		}
 		ok := true
 		for i, sg := range it.segs {
-			if sg != '+' && verifLower(sg) != verifLower(q[i]) {
+			if sg != '+' && (empty[i] || verifLower(sg) != verifLower(q[i])) {
 				ok = false
 			}
 		}
